@@ -1,27 +1,550 @@
-//! C17 — not built yet (stub so that the binary links; `./check C17` reports INFRA until replaced).
+//! C17 — tokenizer: tokens tile the source and carry exact positions.
+//!
+//! Oracle (see `c17_ref.rs`): an independent maximal-munch reference lexer over the documented token set
+//! plus an independent line index. Cases: (a) every string up to a length bound over a 22-symbol alphabet
+//! and every short sequence of token-class fragments (`extra_phase`, exhaustive), (b) tape-driven random
+//! concatenations of token-class fragments.
 use arbitrary::Unstructured;
-use vcore::{Check, Labels, Plan, Tier, Verdict};
+use serde::{Deserialize, Serialize};
+use serde_json::json;
+use std::collections::BTreeMap;
+use vcore::{hash64, Check, Found, Labels, RunCfg, Stats, Step, Tape, Tier, Verdict};
 
-pub struct Stub;
-pub const CHECK: Stub = Stub;
-pub fn plan(_t: Tier) -> Plan {
-    Plan::new(1, 16)
+#[path = "c17_ref.rs"]
+mod reflex;
+use reflex::{judge, Judged, RefLexer, Want, FLAG_NAMES};
+
+pub struct C17;
+pub const CHECK: C17 = C17;
+pub fn plan(t: Tier) -> vcore::Plan {
+    vcore::Plan::new(t.pick(200_000, 5_000_000), t.pick(128, 192))
 }
-impl Check for Stub {
-    type Case = u8;
+
+#[derive(Clone, Serialize, Deserialize)]
+pub struct Case {
+    pub src: String,
+    /// how the text was produced (information only; the oracle looks at `src` alone)
+    #[serde(default)]
+    pub origin: String,
+}
+
+// ------------------------------------------------------------------------------------------------
+// fragments
+// ------------------------------------------------------------------------------------------------
+
+const WORDS: &[&str] = &[
+    "a", "i", "if", "iff", "elif", "eli", "elif_", "else", "els", "elsee", "externblob", "externblo", "externblobs", "external",
+    "externa", "externals", "blob", "blo", "blobb", "nil", "ni", "nill", "true", "tru", "truee", "false", "fals", "falsee", "int",
+    "in", "inn", "is", "iss", "do", "d", "doo", "end", "en", "endd", "fn", "f", "fnn", "pu", "p", "pub", "and", "an", "andd", "or",
+    "o", "orr", "not", "no", "nott", "use", "us", "used", "from", "fro", "fromm", "as", "ass", "ret", "re", "rett", "loop", "loo",
+    "loops", "break", "brea", "breaks", "continue", "continu", "continued", "case", "cas", "cases", "enum", "enu", "enums", "void",
+    "voi", "voidd", "bool", "boo", "bools", "float", "floa", "floats", "str", "st", "strr", "x1", "_", "__", "a_b", "A", "Zz9", "e",
+    "e3", "If", "NIL", "true1", "nil_", "_if",
+];
+const NUMBERS: &[&str] = &[
+    "0", "1", "42", "007", "1.", "0.", ".1", ".5", "1.5", "1e5", "1e+", "1e-", "1e-3", "1e+5", "1e", "1..2", "1.e3", "1.5e3",
+    "1e5e5", "1.2.3", "..", "1e5.", ".5.", "99999999999999999999", "9223372036854775807", "9223372036854775808", "1e999",
+    "0.000000000000000000001", "123456789012345678901234567890.5", "\u{663}", "1\u{663}", "\u{ff15}", "1.\u{663}", "\u{663}.5",
+    "1e\u{966}", "1a", "1_", "1if",
+];
+const STRINGS: &[&str] = &[
+    "\"\"", "\"a\"", "\"a b\"", "\"\u{f6}\"", "\"\u{5b57}\"", "\"\u{1f600}\"", "\"// no comment\"", "\"1.5\"", "\"'\"", "\"\t\"",
+    "\"if\"", "\"<=>\"", "\"\\\"", "\"a\nb\"", "\"\n\"", "\"x\n\ny\"", "\"\r\n\"", "\"\u{f6}\n\u{5b57}\"", "\"", "\"abc",
+];
+const COMMENTS: &[&str] = &[
+    "//", "// c", "///", "//a//b", "// \u{f6}\u{5b57}", "//\t x \t", "// \"q", "// c\n", "//\n", "// x\r\n", "/", "/=", "/ /", "//\u{a0}c\u{a0}",
+    "// 1.5 if <=>",
+];
+const OPERATORS: &[&str] = &[
+    "<", "<=", "<=>", "<!", "<!>", "<<<<<<<", "<<<<<<", "<<<<<<<<", ">>>>>>>", ">>>>>>", ">>>>>>>>", "-", "->", "-=", "-->", ":", "::",
+    ":=", ":::", "::=", "=", "==", "===", "=>", "!=", "!", "!!", "!==", "+", "+=", "++", "*", "*=", "**", "#", "(", ")", "[", "]", "{",
+    "}", "?", "|", "'", ",", ".", ">", ">=", ">=>", "<>", "<=<", "<!=",
+];
+const SPACES: &[&str] = &[" ", "  ", "\t", "\r", "\r\n", "\n", "\n\n", " \n ", "\t\n\t", "\r\r\n"];
+const OTHER: &[&str] = &[
+    "\u{f6}", "\u{5b57}", "\u{1f600}", "e\u{301}", "\u{a0}", "\u{2028}", "\u{1}", "\u{7f}", "@", "$", "\\", "`", "~", "%", "^", "&", ";",
+    "\u{b}", "\u{c}", "\u{feff}", "\u{3b1}\u{3b2}", "\u{f6}a", "a\u{f6}",
+    // characters whose UTF-8 encoding shares 1, 2 or 3 leading bytes with a non-ASCII decimal digit
+    "\u{670}", "\u{6dd}", "\u{964}", "\u{ff01}", "\u{ff5e}", "\u{1d7cd}", "\u{1d7cd}1",
+];
+const ALPHABET: [char; 23] = [
+    'a', 'e', '_', '1', '0', '.', '"', '\'', '\n', ' ', '\t', '\r', '/', '-', '>', '<', '=', ':', '!', '+', '\u{f6}', '\u{5b57}', '\u{ff01}',
+];
+
+const CLASSES: &[&[&str]] = &[WORDS, NUMBERS, OPERATORS, SPACES, STRINGS, COMMENTS, OTHER];
+
+fn all_fragments() -> Vec<&'static str> {
+    let mut v: Vec<&'static str> = Vec::new();
+    for c in CLASSES {
+        for f in c.iter() {
+            if !v.contains(f) {
+                v.push(f);
+            }
+        }
+    }
+    for f in reflex::FIXED {
+        if !v.contains(f) {
+            v.push(f);
+        }
+    }
+    v
+}
+
+/// Generator switch for the open findings: (1) "lines are only counted at newline tokens": replace the
+/// newlines inside (terminated) string literals by spaces, so that no token follows a multi-line token;
+/// (2) "`D.` before certain non-ASCII characters becomes an error": blank such a character.
+fn without_multiline_strings(src: &str) -> String {
+    let chars: Vec<char> = src.chars().collect();
+    let lexer = RefLexer { chars: &chars, unicode_digits: true };
+    let mut out = chars.clone();
+    let mut p = 0;
+    while p < chars.len() {
+        if reflex::is_skipped(chars[p]) {
+            p += 1;
+            continue;
+        }
+        match lexer.at(p) {
+            Some(rt) => {
+                if rt.want == Want::Str {
+                    for k in p..p + rt.len {
+                        if out[k] == '\n' {
+                            out[k] = ' ';
+                        }
+                    }
+                }
+                p += rt.len;
+                // second open finding: a numeral `D.` directly followed by a non-ASCII character
+                if matches!(rt.want, Want::Float(_) | Want::BadNumeral) && chars[p - 1] == '.' && p < chars.len() && !chars[p].is_ascii() {
+                    out[p] = ' ';
+                }
+            }
+            // nothing matches: an error token of unconstrained extent; when this is an unterminated `"`
+            // there is no further `"` in the text, hence no further string literal
+            None => p += 1,
+        }
+    }
+    out.into_iter().collect()
+}
+
+// ------------------------------------------------------------------------------------------------
+// exhaustive phase
+// ------------------------------------------------------------------------------------------------
+
+const HASH_CAP: usize = 1_500_000;
+
+#[derive(Default)]
+struct Acc {
+    evaluated: u64,
+    passed: u64,
+    nontrivial: u64,
+    discarded: BTreeMap<String, u64>,
+    hashes: Vec<u64>,
+    flag_counts: BTreeMap<&'static str, u64>,
+    /// signature -> (number of violating inputs, (length, enumeration index) of the kept one, kept one)
+    by_sig: BTreeMap<String, (u64, (usize, u64), Found)>,
+    samples: Vec<String>,
+}
+
+impl Acc {
+    fn take(&mut self, src: &str, size: usize, index: u64, origin: &str) {
+        let j = judge(src);
+        self.evaluated += 1;
+        // kept reproduction per signature: shortest, among those one without error tokens, then enumeration order
+        let key = (size * 2 + (j.flags & reflex::F_ERROR != 0) as usize, index);
+        if let Some(d) = j.discard {
+            *self.discarded.entry(d.to_string()).or_default() += 1;
+            return;
+        }
+        for (bit, name) in FLAG_NAMES {
+            if j.flags & bit != 0 {
+                *self.flag_counts.entry(name).or_default() += 1;
+            }
+        }
+        match j.viol {
+            Some(v) => {
+                let e = self.by_sig.entry(v.signature.clone());
+                let found = || Found {
+                    signature: v.signature.clone(),
+                    detail: v.detail.clone(),
+                    case_json: serde_json::to_value(Case { src: src.to_string(), origin: origin.to_string() }).unwrap_or_default(),
+                };
+                match e {
+                    std::collections::btree_map::Entry::Vacant(x) => {
+                        x.insert((1, key, found()));
+                    }
+                    std::collections::btree_map::Entry::Occupied(mut x) => {
+                        let cur = x.get_mut();
+                        cur.0 += 1;
+                        if key < cur.1 {
+                            cur.1 = key;
+                            cur.2 = found();
+                        }
+                    }
+                }
+            }
+            None => {
+                self.passed += 1;
+                if j.nontrivial() {
+                    self.nontrivial += 1;
+                    if self.hashes.len() < HASH_CAP {
+                        self.hashes.push(hash64(src));
+                    }
+                    if self.samples.len() < 2 && src.chars().count() >= 4 && self.nontrivial % 977 == 1 {
+                        self.samples.push(src.to_string());
+                    }
+                }
+            }
+        }
+    }
+    fn merge(&mut self, o: Acc) {
+        self.evaluated += o.evaluated;
+        self.passed += o.passed;
+        self.nontrivial += o.nontrivial;
+        for (k, v) in o.discarded {
+            *self.discarded.entry(k).or_default() += v;
+        }
+        for (k, v) in o.flag_counts {
+            *self.flag_counts.entry(k).or_default() += v;
+        }
+        for h in o.hashes {
+            if self.hashes.len() < HASH_CAP {
+                self.hashes.push(h);
+            }
+        }
+        for (sig, (cnt, key, f)) in o.by_sig {
+            match self.by_sig.get_mut(&sig) {
+                None => {
+                    self.by_sig.insert(sig, (cnt, key, f));
+                }
+                Some(cur) => {
+                    cur.0 += cnt;
+                    if key < cur.1 {
+                        cur.1 = key;
+                        cur.2 = f;
+                    }
+                }
+            }
+        }
+        for s in o.samples {
+            if self.samples.len() < 4 {
+                self.samples.push(s);
+            }
+        }
+    }
+}
+
+/// Runs `work(k, n_threads, &mut acc)` on `threads` threads and merges the accumulators in thread order.
+fn parallel(threads: usize, work: &(dyn Fn(usize, usize, &mut Acc) + Sync)) -> Acc {
+    let mut parts: Vec<Acc> = Vec::new();
+    std::thread::scope(|s| {
+        let handles: Vec<_> = (0..threads)
+            .map(|k| {
+                s.spawn(move || {
+                    let mut a = Acc::default();
+                    work(k, threads, &mut a);
+                    a
+                })
+            })
+            .collect();
+        for h in handles {
+            match h.join() {
+                Ok(a) => parts.push(a),
+                Err(_) => parts.push(Acc::default()),
+            }
+        }
+    });
+    let mut total = Acc::default();
+    for p in parts {
+        total.merge(p);
+    }
+    total
+}
+
+/// all strings of exactly `len` symbols of ALPHABET
+fn enumerate_strings(len: usize, threads: usize) -> Acc {
+    let base = ALPHABET.len() as u64;
+    let total = base.pow(len as u32);
+    parallel(threads, &|k, t, acc| {
+        let lo = total * k as u64 / t as u64;
+        let hi = total * (k as u64 + 1) / t as u64;
+        let mut s = String::with_capacity(len * 3);
+        for i in lo..hi {
+            s.clear();
+            let mut v = i;
+            for _ in 0..len {
+                s.push(ALPHABET[(v % base) as usize]);
+                v /= base;
+            }
+            acc.take(&s, len, i, "exhaustive-alphabet");
+        }
+    })
+}
+
+/// all concatenations of exactly `len` fragments
+fn enumerate_fragments(len: usize, threads: usize) -> Acc {
+    let frags = all_fragments();
+    let base = frags.len() as u64;
+    let total = base.pow(len as u32);
+    parallel(threads, &|k, t, acc| {
+        let lo = total * k as u64 / t as u64;
+        let hi = total * (k as u64 + 1) / t as u64;
+        let mut s = String::new();
+        for i in lo..hi {
+            s.clear();
+            let mut v = i;
+            for _ in 0..len {
+                s.push_str(frags[(v % base) as usize]);
+                v /= base;
+            }
+            acc.take(&s, s.chars().count() + 1000, i, "exhaustive-fragments");
+        }
+    })
+}
+
+// ------------------------------------------------------------------------------------------------
+// the check
+// ------------------------------------------------------------------------------------------------
+
+// DEVTEMP
+fn dev_ignored(sig: &str) -> bool {
+    std::env::var("VERIF_C17_DEV_IGNORE").map(|l| l.split(',').any(|x| x == sig)).unwrap_or(false)
+}
+
+impl Check for C17 {
+    type Case = Case;
     fn id(&self) -> &'static str {
         "C17"
     }
-    fn generate(&self, _u: &mut Unstructured, _tier: Tier) -> Option<u8> {
-        None
+
+    fn generate(&self, u: &mut Unstructured, tier: Tier) -> Option<Case> {
+        let mut t = Tape::new(u);
+        // switch for the open finding: on (= avoid) for 80 % of the cases
+        let free = t.chance(1, 5);
+        let n = 1 + t.below(tier.pick(24, 40));
+        let mut s = String::new();
+        for _ in 0..n {
+            match t.weighted(&[22, 12, 20, 8, 10, 8, 8, 12]) {
+                0 => s.push_str(*t.pick(WORDS)),
+                1 => s.push_str(*t.pick(NUMBERS)),
+                2 => s.push_str(*t.pick(OPERATORS)),
+                3 => s.push_str(*t.pick(SPACES)),
+                4 => s.push_str(*t.pick(STRINGS)),
+                5 => s.push_str(*t.pick(COMMENTS)),
+                6 => s.push_str(*t.pick(OTHER)),
+                _ => {
+                    // raw symbols of the enumeration alphabet (strings longer than the exhaustive bound)
+                    let k = 1 + t.below(8);
+                    for _ in 0..k {
+                        s.push(*t.pick(&ALPHABET));
+                    }
+                }
+            }
+            match t.weighted(&[6, 3, 1, 1]) {
+                0 => {}
+                1 => s.push(' '),
+                2 => s.push('\n'),
+                _ => s.push_str("\r\n"),
+            }
+        }
+        let (src, origin) = if free { (s, "fragments/free") } else { (without_multiline_strings(&s), "fragments/no-multi-line-strings") };
+        Some(Case { src, origin: origin.to_string() })
     }
-    fn evaluate(&self, _case: &u8, _labels: &mut Labels) -> Verdict {
-        Verdict::Discard("stub".into())
+
+    fn evaluate(&self, case: &Case, labels: &mut Labels) -> Verdict {
+        if !case.origin.is_empty() {
+            labels.add(format!("gen:{}", case.origin));
+        }
+        let j: Judged = judge(&case.src);
+        if let Some(d) = j.discard {
+            return Verdict::Discard(d.to_string());
+        }
+        for (bit, name) in FLAG_NAMES {
+            if j.flags & bit != 0 {
+                labels.add(format!("has:{}", name));
+            }
+        }
+        labels.add(match j.ntok {
+            0..=1 => "tokens:0-1",
+            2..=9 => "tokens:2-9",
+            10..=39 => "tokens:10-39",
+            _ => "tokens:40+",
+        });
+        match j.viol {
+            Some(v) if dev_ignored(&v.signature) => Verdict::Discard(format!("DEV-IGNORED {}", v.signature)),
+            Some(v) => Verdict::Violation { signature: v.signature, detail: v.detail },
+            None => Verdict::Pass { nontrivial: j.nontrivial() },
+        }
     }
+
+    fn simplify_at(&self, case: &Case, idx: usize) -> Step<Case> {
+        // delete a run of characters (runs of 16, 8, 4, 2, 1), then replace a character by 'a'
+        let chars: Vec<char> = case.src.chars().collect();
+        let n = chars.len();
+        let mut k = idx;
+        for size in [16usize, 8, 4, 2, 1] {
+            if size > n {
+                continue;
+            }
+            let slots = (n + size - 1) / size;
+            if k < slots {
+                let st = k * size;
+                let en = (st + size).min(n);
+                let mut out: String = chars[..st].iter().collect();
+                out.extend(chars[en..].iter());
+                return Step::Candidate(Case { src: out, origin: case.origin.clone() });
+            }
+            k -= slots;
+        }
+        if k < n {
+            if chars[k] == 'a' || chars[k] == '\n' || chars[k] == '"' {
+                return Step::Skip;
+            }
+            let mut c2 = chars.clone();
+            c2[k] = 'a';
+            return Step::Candidate(Case { src: c2.into_iter().collect(), origin: case.origin.clone() });
+        }
+        Step::End
+    }
+
+    fn sample(&self, case: &Case) -> serde_json::Value {
+        vcore::truncate_value(json!({"src": case.src, "origin": case.origin}), 2048)
+    }
+
+    fn extra_phase(&self, cfg: &RunCfg, stats: &mut Stats) -> Vec<Found> {
+        let threads = cfg.workers.max(1);
+        let max_len = cfg.tier.pick(5usize, 6usize);
+        let max_frags = cfg.tier.pick(2usize, 3usize);
+        stats.extra.insert("random_phase_evaluations".into(), json!(stats.evaluations));
+        let mut total = Acc::default();
+        let mut per_len = serde_json::Map::new();
+        for len in 0..=max_len {
+            let a = enumerate_strings(len, threads);
+            per_len.insert(format!("alphabet-length-{}", len), json!(a.evaluated));
+            total.merge(a);
+        }
+        let alphabet_total = total.evaluated;
+        for len in 1..=max_frags {
+            let a = enumerate_fragments(len, threads);
+            per_len.insert(format!("fragment-sequences-of-{}", len), json!(a.evaluated));
+            total.merge(a);
+        }
+        stats.evaluations += total.evaluated;
+        stats.passed += total.passed;
+        stats.nontrivial += total.nontrivial;
+        for h in &total.hashes {
+            stats.distinct_nontrivial.insert(*h);
+        }
+        for (k, v) in &total.discarded {
+            *stats.discards.entry(k.clone()).or_default() += v;
+        }
+        for s in &total.samples {
+            if stats.samples.len() < 5 {
+                stats.samples.push(json!({"src": s, "origin": "exhaustive"}));
+            }
+        }
+        let alphabet: String = ALPHABET.iter().collect();
+        stats.extra.insert("exhaustive".into(), json!(true));
+        stats.extra.insert(
+            "exhaustive_bound".into(),
+            json!(format!(
+                "every string of length 0..={} over the {} symbols {:?} ({} strings), and every concatenation of 1..={} of the {} token-class fragments ({} texts)",
+                max_len,
+                ALPHABET.len(),
+                alphabet,
+                alphabet_total,
+                max_frags,
+                all_fragments().len(),
+                total.evaluated - alphabet_total
+            )),
+        );
+        stats.extra.insert("exhaustive_max_length".into(), json!(max_len));
+        stats.extra.insert("exhaustive_alphabet".into(), json!(alphabet));
+        stats.extra.insert("exhaustive_evaluated".into(), json!(total.evaluated));
+        stats.extra.insert("exhaustive_evaluated_by_family".into(), serde_json::Value::Object(per_len));
+        stats.extra.insert("exhaustive_passed".into(), json!(total.passed));
+        stats.extra.insert("exhaustive_nontrivial".into(), json!(total.nontrivial));
+        stats.extra.insert("exhaustive_class_counts".into(), json!(total.flag_counts));
+        let by_sig: BTreeMap<&String, u64> = total.by_sig.iter().map(|(k, v)| (k, v.0)).collect();
+        stats.extra.insert("exhaustive_violating_inputs_by_signature".into(), json!(by_sig));
+        if total.nontrivial as usize > total.hashes.len() {
+            stats.extra.insert(
+                "note_distinct_nontrivial".into(),
+                json!(format!(
+                    "distinct_nontrivial counts at most {} of the {} non-trivial enumerated strings (all enumerated strings are distinct by construction)",
+                    HASH_CAP, total.nontrivial
+                )),
+            );
+        }
+        // one reproduction per signature: the shortest, then the first in enumeration order
+        let mut found: Vec<((usize, u64), Found)> = total.by_sig.into_values().map(|(_, key, f)| (key, f)).collect();
+        found.sort_by(|a, b| a.0.cmp(&b.0));
+        found.into_iter().map(|x| x.1).filter(|f| !dev_ignored(&f.signature)).collect()
+    }
+
+    fn health(&self, s: &Stats) -> Result<(), String> {
+        let random = s.extra.get("random_phase_evaluations").and_then(|v| v.as_u64()).unwrap_or(s.evaluations);
+        if random == 0 {
+            return Err("no random cases were evaluated".into());
+        }
+        let frac = |l: &str| s.label(l) as f64 / random as f64;
+        let need: &[(&str, f64)] = &[
+            ("has:multibyte-char", 0.20),
+            ("has:token-after-multibyte-on-line", 0.10),
+            ("has:munch-conflict", 0.50),
+            ("has:error-token", 0.15),
+            ("has:numeral-without-value", 0.02),
+            ("has:comment", 0.10),
+            ("has:string", 0.10),
+            ("has:float", 0.10),
+            ("has:keyword", 0.20),
+            ("has:carriage-return", 0.05),
+            ("gen:fragments/free", 0.10),
+            ("gen:fragments/no-multi-line-strings", 0.60),
+        ];
+        for (l, min) in need {
+            if frac(l) < *min {
+                return Err(format!("label {} in only {:.2}% of the random cases (need {:.0}%)", l, frac(l) * 100.0, min * 100.0));
+            }
+        }
+        let discards: u64 = s.discards.values().sum();
+        if discards as f64 > 0.05 * s.evaluations as f64 {
+            return Err(format!("{} of {} cases discarded", discards, s.evaluations));
+        }
+        if s.extra.get("exhaustive_evaluated").and_then(|v| v.as_u64()).unwrap_or(0) < 200_000 {
+            return Err("the exhaustive enumeration did not run".into());
+        }
+        Ok(())
+    }
+
     fn rule(&self) -> String {
-        "stub".into()
+        "cases: (a) EXHAUSTIVE: every string of length <= 5 (quick) / <= 6 (thorough) over the 22 symbols \
+         a e _ 1 0 . \" ' \\n space \\t \\r / - > < = : ! + ö 字, and every concatenation of <= 2 (quick) / <= 3 (thorough) fragments of the \
+         fragment list (all fixed spellings, keyword prefixes/extensions, numerals such as 1. .1 1e5 1e+ 1e-3 1..2 1.e3 and numerals \
+         without value, strings with embedded newlines / multi-byte characters / unterminated, comments with and without newline, \
+         operators with prefixes and extensions, conflict markers, CR/LF/tab mixes, non-ASCII letters, 4-byte emoji, combining marks, \
+         control characters); (b) RANDOM: tape-driven concatenations of 1..24 (thorough 1..40) such fragments and raw alphabet runs with \
+         random separators; for 80 % of the random cases newlines inside string literals are replaced by spaces (switch for the open \
+         findings about multi-line tokens). Oracle: walking the text with an independent maximal-munch lexer (longest match over the \
+         token definitions, fixed spelling wins a tie against the identifier rule) the reported token list must be exactly: next \
+         non-[space,tab,CR] character starts a token; same kind, same payload (identifier text, string contents, number value bit-exact, \
+         comment text trimmed, bool) and same extent as the reference token there; where no definition matches an Error token of >= 1 \
+         character inside the text (extent otherwise free; the walk resumes after it); a numeral whose text has no value (> i64, \
+         non-ASCII digits) is an Error token of exactly the numeral's extent; nothing but skipped whitespace may remain after the last \
+         token. Every token's line_start/col_start/line_end/col_end must equal the position computed by an independent line index: \
+         line = 1 + number of '\\n' before the character, column = 1 + characters since that '\\n'; (line_end, col_end) = position of the \
+         token's last character with the column made exclusive (+1), also for tokens that contain newlines. Non-trivial: the text has \
+         >= 2 tokens and (a multi-byte character, or a '\\n' inside a token other than the newline token, or a position where at least \
+         two different token definitions match a prefix so that maximal munch / priority decides). distinct = by text."
+            .into()
     }
-    fn health(&self, _s: &vcore::Stats) -> Result<(), String> {
-        Err("check not built yet".into())
+
+    fn assumptions(&self) -> Vec<String> {
+        vec![
+            "the documented token set is the list of spellings and regular expressions in sylt-tokenizer/src/token.rs read as ordinary regular expressions; 'longest match' is taken literally (the reference lexer backtracks to the longest complete match, e.g. '1e+' is Int, Identifier, Plus)".into(),
+            "only '\\n' ends a line; '\\r' is skipped whitespace between tokens and an ordinary character inside comments and strings; columns count Unicode scalar values (not bytes, not grapheme clusters)".into(),
+            "whether \\d includes non-ASCII decimal digits is not documented: both readings are accepted (the numeral is then an Error token of the numeral's extent, or each such digit is an unmatched character); texts containing numeric characters outside the harness's decimal-digit table are discarded".into(),
+            "the extent of an Error token at a place where no definition matches is not constrained (>= 1 character, inside the text, not overlapping); when it is reported with line_end == line_start its extent is taken as col_end - col_start and its end position is not judged further".into(),
+            "a comment's payload is its text after '//' with leading and trailing Unicode white space removed; number values are compared with Rust's correctly rounded decimal parsing".into(),
+        ]
     }
 }
